@@ -2,7 +2,7 @@
 (* Unpadded URL-safe base64 over character codes: encoder and STRICT decoder  *)
 (* (alphabet A-Z a-z 0-9 - _ only, no padding, length mod 4 # 1, unused       *)
 (* trailing bits zero).                                                       *)
-EXTENDS Bytes
+EXTENDS BytesCore
 
 B64Char(v) ==
   IF v < 26 THEN 65 + v
